@@ -201,7 +201,7 @@ def turn_rule(field):
 SELF_MUT = [("&self", "&mut self")]
 # C09: a future can only be dropped where it returned Pending, i.e. at an await.  If no write to the protocol state has
 # happened before any await of a call, dropping the call at any point leaves the protocol state exactly as it found it.
-AWAIT_REQ = [("C09:cancel_at_any_await_leaves_protocol_state_untouched", "self.log@ == old(self).log@")]
+AWAIT_REQ = [("C09+C10:cancel_at_any_await_leaves_protocol_state_untouched", "self.log@ == old(self).log@")]
 AWAIT_REP = AWAIT_REQ
 ATTRS = ["#[verifier::loop_isolation(false)]", "#[verifier::allow_complex_invariants]", "#[verifier::exec_allows_no_decreases_clause]"]
 
